@@ -317,9 +317,15 @@ def tlc_trace(ctx, module, cfg, trace_path, trace_name="trace.ndjson", timeout=1
 
 def load_known():
     p = os.path.join(ROOT, "known_findings.json")
-    if not os.path.exists(p):
-        return []
-    return json.load(open(p)).get("findings", [])
+    out = []
+    if os.path.exists(p):
+        out += json.load(open(p)).get("findings", [])
+    d = os.path.join(ROOT, "known_findings.d")      # per-property parts written on development branches;
+    if os.path.isdir(d):                             # folded into known_findings.json by bin/fold-known
+        for f in sorted(os.listdir(d)):
+            if f.endswith(".json"):
+                out += json.load(open(os.path.join(d, f))).get("findings", [])
+    return out
 
 
 def match_known(pid, key):
